@@ -93,7 +93,7 @@ class C10(Prop):
         "gam_sxp_textbook_laws", "gam_sxp_code_vs_textbook", "gam_sxp_code_close", "mixture_full_laws",
         "mixture_sample_is_component_inverse", "transformed_samples", "sampler_primitive_arguments",
         "gam_sxp_inverse_laws", "mixgev_log_versions", "hxp_inverse_laws", "mixgev_code_close_everywhere", "inverse_right_and_samples",
-        "bisection_total_generic", "hxp_invcdf_total", "sxp_gam_invcdf_total_partial", "mixgev_invcdf_total", "gam_sample_generated", "mixture_log_versions", "cdf_limits_wei_gev_mixgev", "mixgev_inverse_laws", "bisection_fuel_covers_binary64", "incomplete_gamma_series_converges", "hxp_invcdf_at_driver_fuel", "mixgev_invcdf_total_unconditional")]
+        "bisection_total_generic", "hxp_invcdf_total", "sxp_gam_invcdf_total_partial", "mixgev_invcdf_total", "gam_sample_generated", "mixture_log_versions", "cdf_limits_wei_gev_mixgev", "mixgev_inverse_laws", "bisection_fuel_covers_binary64", "incomplete_gamma_series_converges", "hxp_invcdf_at_driver_fuel", "mixgev_invcdf_total_unconditional", "support_edge_values", "support_edge_branches")]
     claimed = True
     technique = ("Lean 4 proof about the C functions translated from the working tree on every run (clang-14 AST -> Lean, polymorphic "
                  "over a numeric class): real-analysis theorems at the R instance, the same definitions executed at Float bit-for-bit "
@@ -580,9 +580,32 @@ class C10(Prop):
         out.append({"name": "edge-nonfinite-mix", "ops": ops, "tie_only": True})
         return out
 
+    def at_mu_cases(self):
+        """Round 6b: the exact support-edge values (theorems gam_at_mu / wei_at_mu / sxp_at_mu of Props/C10.lean) as DOCUMENTED
+           values, compared bit-for-bit with the implementation (monitor `expect`) and with the model: x == mu exactly for
+           tau < 1 (incl. 1 - 1 ulp), tau == 1, tau > 1 (incl. 1 + 1 ulp), and one ulp below mu (outside the support)."""
+        INF = math.inf
+        ops, want = [], []
+        for mu, lam in ((0.0, 1.0), (3.0, 2.0), (-4.0, 0.5), (1e3, 1e-3), (-1e3, 1e3)):
+            for tau in (0.05, 0.5, nextafter(1.0, -1), 1.0, nextafter(1.0, 1), 2.0, 20.0):
+                edge_pdf = INF if tau < 1.0 else (lam if tau == 1.0 else 0.0)
+                edge_log = INF if tau < 1.0 else (math.log(lam) if tau == 1.0 else -INF)
+                for fam in ("gam", "wei", "sxp"):
+                    pre = R.FAMILY[fam][0]
+                    below = nextafter(mu, -1)
+                    vals = [("cdf", mu, 0.0), ("surv", mu, 1.0), ("logcdf", mu, -INF), ("logsurv", mu, 0.0),
+                            ("pdf", below, 0.0), ("logpdf", below, -INF), ("cdf", below, 0.0), ("surv", below, 1.0),
+                            ("logcdf", below, -INF), ("logsurv", below, 0.0)]
+                    if fam != "sxp":         # (esl_sxp_pdf(mu) = lambda tau / Gamma(1/tau): through esl_stats_LogGamma, judged by the closed-form monitor)
+                        vals += [("pdf", mu, edge_pdf), ("logpdf", mu, edge_log)]
+                    for w, x, v in vals:
+                        ops.append(op_f(pre + w, [x, mu, lam, tau]))
+                        want.append(dhex(v))
+        return [{"name": "edge-at-mu-exact", "ops": ops, "expect": want}]
+
     def corpus(self, ctx):
         rng = ctx.rng
-        out = self.edge_cases()
+        out = self.edge_cases() + self.at_mu_cases()
         # canonical parameters: thresholds are hit exactly (x = y)
         for fam in self.families_T:
             for extra in ([[]] if fam in ("exp", "gumbel") else [[v] for v in ((1e-13, -1e-13, 5e-12, 0.5, -0.5) if fam == "gev" else (0.7, 1.0, 2.0))]):
